@@ -14,7 +14,7 @@ import jobs as J
 import model as M
 import sched as S
 from gen import H, O
-from vlib import run_driver_parallel, coq_eval, warm_config, trace_to_coq, unhex
+from vlib import run_driver_parallel, coq_eval, warm_config, trace_to_coq, unhex, cb
 
 LOOKUPS = [
     {"k": "resolve", "path": H("a/b/../b/f")},
@@ -110,6 +110,40 @@ def run(ck):
                 ck.violation("T1: model and implementation disagree on a lookup under attack",
                              {"lookup": J.describe({"op": job["op"]}), "attack": job["attack_desc"], "deny": tag, "replay": rep,
                               "real_outcome": res.get("res"), "around": tr[max(0, at - 2):at + 2]}, False)
+    # ---- tie for the pure part of check_current: std::path equality and PathBuf::push against the model's path_eq / push_all
+    pieces = ["/", "//", ".", "..", "a", "b", "root", "srv", "b (deleted)", "x.y", "...", " ", "a/b", "./", "/."]
+    pairs = []
+    for _ in range(1500 if thorough else 400):
+        a = "".join(rng.choice(pieces) + rng.choice(["/", "/", "", "//"]) for _ in range(rng.randint(0, 5)))
+        if rng.random() < 0.6:
+            # a re-spelling of a (same components, different separators / dots) or a near miss
+            bb = a.replace("/", rng.choice(["/", "//", "/./"]))
+            bb = bb + rng.choice(["", "/", "/.", "/..", "x"])
+        else:
+            bb = "".join(rng.choice(pieces) + rng.choice(["/", ""]) for _ in range(rng.randint(0, 5)))
+        comps = ["."] + [rng.choice(["a", "b", "x.y", "b (deleted)", "...", " "]) for _ in range(rng.randint(0, 3))]
+        pairs.append((a, bb, comps))
+    _, pres, _ = run_driver_parallel([{"id": 1, "op": {"k": "path_eq", "pairs": [[H(a), H(bb), [H(c) for c in comps]] for a, bb, comps in pairs]}, "trace": False}],
+                                     tag="c02p", shards=1)
+    eqs = (pres.get(1) or {}).get("res", {}).get("eqs", [])
+    pcases = [(i, "[if path_eq %s %s then 1%%Z else 0%%Z] ++ map Z.of_N (push_all %s [%s])" % (cb(H(a)), cb(H(bb)), cb(H(a)), "; ".join(cb(H(c)) for c in comps)))
+              for i, (a, bb, comps) in enumerate(pairs)]
+    stats["path_pairs"] = 0
+    if eqs and not ck.proof_broken:
+        pev, perrs = coq_eval(pcases, header="From PV Require Import OpathM.", tag="c02p")
+        if perrs:
+            ck.violation("tie: Coq evaluation of the path cases failed", {"log": perrs[0][-1500:]}, False)
+        for i, (a, bb, comps) in enumerate(pairs):
+            got = pev.get(i)
+            if got is None or i >= len(eqs):
+                continue
+            stats["path_pairs"] += 1
+            std_eq, std_join = eqs[i][0], unhex(eqs[i][1])
+            if bool(got[0]) != bool(std_eq):
+                ck.violation("tie: the model's path_eq differs from std::path::Path equality", {"a": a, "b": bb, "std": std_eq, "model": bool(got[0])}, False)
+            if bytes(got[1:]) != std_join:
+                ck.violation("tie: the model's push_all differs from PathBuf::push", {"base": a, "pushed": comps, "std": std_join.decode("latin1"),
+                                                                                    "model": bytes(got[1:]).decode("latin1")}, False)
     cov = {
         "evaluations": stats["runs"],
         "distinct_nontrivial": len(nontrivial),
@@ -122,6 +156,7 @@ def run(ck):
         "samples": samples or [{"note": "no SafetyViolation sample"}],
         "attacked_runs": stats["attacks_applied"], "still_succeeded": stats["ok"], "failed_safely": stats["err"],
         "boundaries_in_baselines": stats["boundaries"], "by_action": stats["by_action"],
+        "path_comparisons_validated_against_std": stats["path_pairs"],
         "traces_validated_against_impl": stats["t1_ok"], "t1_mismatches": stats["t1_bad"], "disagreements_checked": stats["t1_bad"],
     }
     assumptions = ["the attacker acts between system calls (inside one openat2 the kernel's own RESOLVE_IN_ROOT guarantee is assumed)",
